@@ -223,6 +223,7 @@ func runC15(r *Run) {
 	var segKind int
 	zeros := t.Chance(40, "allow-zero-rtt")
 	startTimes := t.Chance(40, "report-start-times")
+	dropStreak := 0
 	for i := 0; i < n; i++ {
 		if segLeft == 0 {
 			segKind = t.Pick([]int{6, 2, 2, 1, 1}, "rtt-seg")
@@ -263,6 +264,13 @@ func runC15(r *Run) {
 			inflight = est / 4
 		}
 		s := Sample{RTT: rtt, InFlight: inflight, Drop: t.Chance(3, "drop")}
+		if dropStreak > 0 {
+			s.Drop = true // an outage: every request fails for a while (probes are due during it as well)
+			dropStreak--
+		} else if t.Chance(1, "drop-streak") {
+			dropStreak = 5 + t.Intn(120, "drop-streak-len")
+			r.Fault("F-loss:streak")
+		}
 		if startTimes {
 			// start times as a caller may report them: not monotone (requests finish out of order, clocks step back)
 			s.Start = int64(t.Intn(1<<30, "start-time"))
